@@ -117,6 +117,9 @@ func (e *Env) harness(msg string) {
 	fmt.Fprintln(os.Stderr, "HARNESS:", msg)
 }
 
+// HarnessMsg records a problem of the harness itself (never a violation).
+func (e *Env) HarnessMsg(msg string) { e.harness(msg) }
+
 // WriteProgram materialises the program under the work dir.
 func (e *Env) WriteProgram(p Program) (string, error) { return e.WriteProgramAs(p, ModName(p.Name)) }
 
@@ -322,8 +325,23 @@ func (e *Env) Check(p Program, variants []Variant) {
 			continue
 		}
 		if got.End == "timeout" {
-			e.harness("js run of " + p.Name + "/" + v.Name + " timed out")
-			continue
+			// A deadline of the harness is not an oracle. Run once more with a deadline far beyond anything a
+			// loaded machine explains; only a program that the reference finished normally and that is still
+			// running after that is reported, as non-termination.
+			r2, err := e.Nodes.RunTimeout(jsx.Req{Script: script, Globals: p.Globals, FifoTimers: true, ContextScript: p.ContextScript}, 15*time.Minute)
+			if err != nil {
+				e.harness("js run of " + p.Name + "/" + v.Name + ": " + err.Error())
+				continue
+			}
+			if r2.End == "timeout" {
+				id := p.Name + "/nontermination"
+				if v.Name != "plain" {
+					id += "@" + v.Name
+				}
+				e.Rep.Violation(id, "the compiled program is still running after 15 minutes; the reference run ended with "+want.End, e.replayFiles(p, v, want, got, ""))
+				continue
+			}
+			got = ref.NormaliseJS(r2.Out, r2.End)
 		}
 		atomic.AddInt64(&e.Compared, int64(len(want.Lines)))
 		d := Diff(want, got)
@@ -477,11 +495,27 @@ func (e *Env) CheckAgainstVariant(p Program, base Variant, others []Variant) {
 	}
 	for _, v := range others {
 		got, br, script := e.RunJS(dir, p, v)
-		if got.End == "harness" || got.End == "timeout" {
+		if got.End == "timeout" {
+			r2, err := e.Nodes.RunTimeout(jsx.Req{Script: script, Globals: p.Globals, FifoTimers: true, ContextScript: p.ContextScript}, 15*time.Minute)
+			if err != nil {
+				e.harness("variant " + v.Name + " of " + p.Name + ": " + err.Error())
+				continue
+			}
+			if r2.End == "timeout" {
+				e.Rep.Violation(p.Name+"/nontermination@"+v.Name+"-vs-"+base.Name, "variant "+v.Name+" is still running after 15 minutes; variant "+base.Name+" ended with "+want.End, e.replayFiles(p, v, want, got, ""))
+				continue
+			}
+			got = ref.NormaliseJS(r2.Out, r2.End)
+		}
+		if got.End == "harness" {
 			e.harness("variant " + v.Name + " of " + p.Name + ": " + got.End)
 			continue
 		}
 		if got.End == "builderror" {
+			if br.Class == "timeout" || br.Class == "harness" {
+				e.harness("build " + p.Name + "/" + v.Name + ": " + br.Err)
+				continue
+			}
 			e.Rep.Violation(p.Name+"/"+v.Name+"/build", "variant "+base.Name+" builds, variant "+v.Name+" fails: "+oneLine(br.Err), e.replayFiles(p, v, want, got, br.Err))
 			continue
 		}
